@@ -79,7 +79,9 @@ func (s *State) layoutOf(e *Expr, depth int) ([]seg, string) {
 			out = []seg{{"bytes", e, -1}}
 		}
 	}
-	// normal form: no empty byte strings, adjacent gaps merged
+	// normal form: octet pairs byte(x>>8), byte(x) of a 16-bit x are be16(x)
+	out = mergeOctetPairs(out)
+	// no empty byte strings, adjacent gaps merged
 	var norm []seg
 	for _, g := range out {
 		if g.Kind == "bytes" {
@@ -210,4 +212,41 @@ func matchLayout(l []seg, pats []segPat) (bool, string) {
 		}
 	}
 	return true, ""
+}
+
+// mergeOctetPairs rewrites byte(uint8(x>>8)) ++ byte(uint8(x)) as be16(x)
+// (and the four-octet analogue as be32(x)).
+func mergeOctetPairs(in []seg) []seg {
+	strip := func(e *Expr) *Expr {
+		for e != nil && e.Op == "conv" {
+			e = e.Args[0]
+		}
+		return e
+	}
+	shifted := func(e *Expr) (*Expr, int64, bool) {
+		e = strip(e)
+		if e == nil {
+			return nil, 0, false
+		}
+		if e.Op == "bin" && e.binOp() == ">>" {
+			if c, ok := e.Args[1].IsConst(); ok {
+				return strip(e.Args[0]), c, true
+			}
+		}
+		return e, 0, true
+	}
+	var out []seg
+	for i := 0; i < len(in); i++ {
+		if in[i].Kind == "byte" && i+1 < len(in) && in[i+1].Kind == "byte" {
+			x0, s0, ok0 := shifted(in[i].Val)
+			x1, s1, ok1 := shifted(in[i+1].Val)
+			if ok0 && ok1 && s0 == 8 && s1 == 0 && x0 != nil && x1 != nil && x0.Key == x1.Key && intTypeInfo(x0.Typ).ok && intTypeInfo(x0.Typ).bits == 16 {
+				out = append(out, seg{"be16", x0, 2})
+				i++
+				continue
+			}
+		}
+		out = append(out, in[i])
+	}
+	return out
 }
